@@ -280,8 +280,23 @@ def str_slice(I, s, sl):
         return s[sl.lo:sl.hi]
     z = zs(s)
     n = z3.Length(z)
-    lo = z3.IntVal(0) if sl.lo is None else norm_index(zi(sl.lo), n)
-    hi = n if sl.hi is None else norm_index(zi(sl.hi), n)
+
+    def bound(b, default):
+        if b is None:
+            return default
+        zb_ = zi(b)
+        if isinstance(b, int):
+            if b >= 0:
+                return z3.If(n < b, n, z3.IntVal(b))
+            return z3.If(n + b < 0, z3.IntVal(0), n + b)
+        # symbolic bound: if the path condition already puts it inside [0, n] use it as it is
+        if I.ctx.check(z3.Not(z3.And(zb_ >= 0, zb_ <= n)))[0] == "unsat":
+            return zb_
+        return norm_index(zb_, n)
+    lo = bound(sl.lo, z3.IntVal(0))
+    hi = bound(sl.hi, n)
+    if I.ctx.check(z3.Not(hi >= lo))[0] == "unsat":
+        return mk_str(z3.SubString(z, lo, hi - lo))
     return mk_str(z3.If(hi > lo, z3.SubString(z, lo, hi - lo), z3.StringVal("")))
 
 
